@@ -40,7 +40,7 @@ def execute(group):
     th = cards.theory(PTO=2, PTODIS=2, FNS=o0["fns"], NfFF=o0["nfff"], mc=m[0], mb=m[1], mt=m[2], kcThr=k[0], kbThr=k[1],
                       ktThr=k[2], Q0=1.0)
     xg = cards.make_grid(4, 4, x_min=1e-2)
-    ob = cards.obs({"F2_light": [dict(x=0.2, Q2=q) for q in q2s]}, xgrid=xg, deg=3, prDIS="EM")
+    ob = cards.obs({n: [dict(x=0.2, Q2=q) for q in q2s] for n in ("F2_light", "F2_total")}, xgrid=xg, deg=3, prDIS="EM")
     lines = []
     try:
         out = cards.run(th, ob)
@@ -50,7 +50,7 @@ def execute(group):
     pids = None if err else list(out["pids"])
     for j, o in enumerate(obls):
         ln = dict(oid=o["oid"], fns=o["fns"], nfff=o["nfff"], m=o["m"], k=o["k"], i=o["i"], cls=o["cls"], outcome=err or "OK",
-                  nf_rows=0, beta0=[0, 1], raw="")
+                  nf_rows=0, beta0=[0, 1], beta0_total=[0, 1], raw="")
         if not err:
             r = out["F2_light"][j]
             lo = r.orders[(0, 0, 0, 0)][0]
@@ -66,7 +66,15 @@ def execute(group):
             spread = float(np.max(np.abs(ratios - b0)))
             ln["nf_rows"] = nfr
             ln["beta0"] = common.snap(b0 if spread < 1e-8 else float("nan"), common.frac(o["beta0"]), rel=1e-9)
-            ln["raw"] = f"Q2={q2s[j]!r} nf_rows={nfr} beta0={b0!r} spread={spread:.1e}"
+            # every contribution (massive, heavy-quark initiated) runs with the same number of flavours: the ratio on ALL rows of
+            # the total, entry by entry
+            at, bt = out["F2_total"][j].orders[(1, 0, 0, 0)][0], out["F2_total"][j].orders[(2, 0, 1, 0)][0]
+            mt_ = np.abs(at) > 1e-6 * np.abs(at).max()
+            rt = -(bt[mt_] / at[mt_])
+            b0t = float(np.median(rt))
+            spt = float(np.max(np.abs(rt - b0t)))
+            ln["beta0_total"] = common.snap(b0t if spt < 1e-8 else float("nan"), common.frac(o["beta0"]), rel=1e-9)
+            ln["raw"] = f"Q2={q2s[j]!r} nf_rows={nfr} beta0={b0!r} spread={spread:.1e}; total: beta0={b0t!r} spread={spt:.1e}"
         lines.append(ln)
     return lines
 
@@ -101,7 +109,8 @@ def run(ctx):
     by = {ln["oid"]: ln for ln in lines}
     good = [{k: v for k, v in ln.items() if k != "raw"} for ln in lines if ln["oid"] not in bad]
     ctx.selftest("Trace_C06", "Trace.cfg", good, [("nf_rows", lambda l: dict(l, nf_rows=l["nf_rows"] + 1)),
-                                                   ("beta0", lambda l: dict(l, beta0=[l["beta0"][0] + 1, l["beta0"][1]]))])
+                                                   ("beta0", lambda l: dict(l, beta0=[l["beta0"][0] + 1, l["beta0"][1]])),
+                                                   ("beta0_total", lambda l: dict(l, beta0_total=[l["beta0_total"][0] + 1, l["beta0_total"][1]]))])
     ob = {o["oid"]: o for o in obls}
     for oid, clause in bad.items():
         ln = by[oid]
